@@ -197,8 +197,11 @@ type Outcome struct {
 	UnprocK      map[string][]val.Item `json:"unprock,omitempty"`
 	CCFItem      val.Item              `json:"ccfitem,omitempty"`
 	HasCCF       bool                  `json:"hasccf,omitempty"`
-	RespNil      bool                  `json:"respnil,omitempty"`  // output struct was nil although err==nil
-	OutAlong     bool                  `json:"outalong,omitempty"` // non-nil output returned together with an error
+	// ErrNotAPI: the call failed with an error class of the service (validation, condition, resource ...) but the
+	// error value is not one a caller of that SDK can match: no awserr.Error (v1) / no smithy.APIError (v2)
+	ErrNotAPI bool `json:"errnotapi,omitempty"`
+	RespNil   bool `json:"respnil,omitempty"`  // output struct was nil although err==nil
+	OutAlong  bool `json:"outalong,omitempty"` // non-nil output returned together with an error
 }
 
 // OK reports success.
